@@ -2,9 +2,10 @@ SPECIFICATION Spec
 CONSTANTS
   N = 2
   Acceptors = {1, 2, 3}
-  Conns = {1, 2, 3}
+  Conns = {1, 2}
   Closers = {1, 2}
   MaxCloses = 2
+  MaxTotal = 2
   MaxErrs = 1
   Spurious = TRUE
 INVARIANTS TypeOK Limit OneSlotEach ClosedMeansError NoneBlockedAfterClose DrainedNeverReturned
